@@ -177,5 +177,29 @@ def run(ctx):
     rng = [n for n in ast.walk(gs.fi.node) if isinstance(n, ast.Call) and isinstance(n.func, ast.Name) and n.func.id == "range"]
     ok = bool(rng) and any(len(r.args) == 2 and isinstance(r.args[0], ast.Constant) and r.args[0].value in (0, 1) and norm(r.args[1]) == "len(s) + 1" for r in rng) and "combinations(s, x)" in txt
     res.check(ok, "S-CANON", gs.fi.short, norm(rng[0]) if rng else "range(0, len(s) + 1)", "all-sizes", "subset sizes do not range over 1..len(s): the hyperedge itself or its smaller faces are missing from the closure", loc(gs.fi, gs.fi.node))
+    # ---- similarity functions: a ratio of two integer counts, rounded once
+    res.rules["D-RATIO"] = "intersection = |a & b|; jaccard_similarity = |a & b| / |a | b| as ONE division of integer counts (no float subtraction before the threshold test)"
+    v = ctx.view("edge_similarity.jaccard_similarity")
+    rets = [n for n in walk_no_nested(v.fi.node) if isinstance(n, ast.Return)]
+
+    def int_count(e):
+        if isinstance(e, ast.Call) and isinstance(e.func, ast.Name) and e.func.id == "len":
+            return True
+        if isinstance(e, ast.BinOp) and isinstance(e.op, (ast.Add, ast.Sub, ast.Mult)):
+            return int_count(e.left) and int_count(e.right)
+        if isinstance(e, ast.Name):
+            defs = [m.value for m in walk_no_nested(v.fi.node) if isinstance(m, ast.Assign) and isinstance(m.targets[0], ast.Name) and m.targets[0].id == e.id]
+            return bool(defs) and all(int_count(d) for d in defs)
+        return isinstance(e, ast.Constant) and isinstance(e.value, int)
+
+    for r in rets:
+        ok = isinstance(r.value, ast.BinOp) and isinstance(r.value.op, ast.Div) and int_count(r.value.left) and int_count(r.value.right)
+        res.check(ok, "D-RATIO", v.fi.short, norm(r), "single-division", "the similarity is not computed as one division of integer counts: an extra floating-point step (e.g. 1 - distance) makes `w >= s` fail when the similarity equals s exactly", loc(v.fi, r))
+        if ok:
+            num, den = norm(r.value.left), norm(r.value.right)
+            res.check(("intersection" in num or "&" in num) and ("union" in den or "|" in den), "D-RATIO", v.fi.short, norm(r), "inter/union", "the similarity is not |a & b| / |a | b|", loc(v.fi, r))
+    v = ctx.view("edge_similarity.intersection")
+    rets = [n for n in walk_no_nested(v.fi.node) if isinstance(n, ast.Return)]
+    res.check(all(norm(r.value) in ("len(a.intersection(b))", "len(a & b)", "len(set(a) & set(b))", "len(set(a).intersection(b))", "len(set(a).intersection(set(b)))") for r in rets), "D-RATIO", v.fi.short, norm(rets[0]), "intersection-size", "intersection() does not return the number of common nodes", loc(v.fi, rets[0]))
     res.assumptions += ["itertools.combinations enumerates every subset of the given size (library)", "for the Jaccard distance `s` is a ratio; the SIZE unit of `s` is only used to reject comparisons of `s` with an ORDER-valued expression"]
     return res
